@@ -6,7 +6,7 @@
    This file contains only statements closed by `exact`, their assumptions and non-vacuity examples.
    Generated once by tools/genprops.py from the proved lemmas (statements restated verbatim). *)
 From Coq Require Import List NArith ZArith Bool Lia.
-From Viv Require Import Base.Assoc Base.Tree Model.Paths Model.Wire Proofs.Paths_proofs Proofs.Wire_proofs.
+From Viv Require Import Base.Assoc Base.Tree Model.Paths Model.Wire Proofs.Paths_proofs Proofs.Wire_proofs Model.Views Proofs.Views_proofs.
 Import ListNotations.
 
 (* the states dict has exactly one entry per declared port, in schema order, nothing else *)
@@ -46,4 +46,52 @@ Theorem C07_view_plain_refs :
 Proof. exact @view_plain_refs. Qed.
 Print Assumptions C07_view_plain_refs.
 
+(* THE VIEW IS ALWAYS CURRENT: through any run - passes of polling, each followed by the application of the due updates (structural or not) and the step phase with its layers - every process and every step is handed the cached view of the hierarchy as it is at that moment, provided Store.apply_update reports view_expire whenever the node structure changes (Engine._send_updates / run_steps rebuild rule) *)
+Theorem C07_views_always_current :
+  forall (S U R : Type) (refs : S -> R) (app : S -> U -> S * bool),
+         (forall (s : S) (u : U), snd (app s u) = false -> refs (fst (app s u)) = refs s) ->
+         forall (passes : list (list (step_fn S U R) * list (list (step_fn S U R))))
+           (st st' : vst S R) (ev : list (vev R)),
+         Inv S R refs st ->
+         run_passes S U R refs app vcur passes st = (st', ev) ->
+         Inv S R refs st' /\ Forall (ev_ok R) ev.
+Proof. exact @views_always_current. Qed.
+Print Assumptions C07_views_always_current.
+
+(* ... one Engine._send_updates call preserves "cache = structure of the current store" and every step invocation inside it reads a current view *)
+Theorem C07_send_updates_inv :
+  forall (S U R : Type) (refs : S -> R) (app : S -> U -> S * bool),
+         (forall (s : S) (u : U), snd (app s u) = false -> refs (fst (app s u)) = refs s) ->
+         forall (us : list U) (layers : list (list (step_fn S U R))) (st st' : vst S R)
+           (ev : list (vev R)),
+         Inv S R refs st ->
+         send_updates S U R refs app vcur us layers st = (st', ev) ->
+         Inv S R refs st' /\ Forall (ev_ok R) ev.
+Proof. exact @send_updates_inv. Qed.
+Print Assumptions C07_send_updates_inv.
+
+(* if the last update of a batch alone decided whether the views are rebuilt, a structural update followed by a plain one would leave every view stale *)
+Theorem C07_last_flag_only_refuted :
+  existsb stale
+           (snd
+              (run_passes nat bool nat (fun x : nat => x) capp
+                 {| v_or_flags := false; v_per_layer := true |}
+                 [([structural; plain], []); ([plain], [])] {| vs := 0; vcache := 0 |})) = true.
+Proof. exact @last_flag_only_refuted. Qed.
+Print Assumptions C07_last_flag_only_refuted.
+
+(* if run_steps rebuilt the views once after all layers, a step of a later layer would be invoked with the view from before an earlier layer's structural update *)
+Theorem C07_rebuild_after_all_layers_refuted :
+  existsb stale
+           (snd
+              (run_passes nat bool nat (fun x : nat => x) capp
+                 {| v_or_flags := true; v_per_layer := false |} [([], [[structural]; [plain]])]
+                 {| vs := 0; vcache := 0 |})) = true.
+Proof. exact @rebuild_after_all_layers_refuted. Qed.
+Print Assumptions C07_rebuild_after_all_layers_refuted.
+
+
+(* the premise of views_always_current is satisfiable, and the current rule leaves nothing stale on the schedules of the refutations *)
+Check capp_reports.
+Check current_code_ok.
 
